@@ -242,11 +242,43 @@ def collapse(reads):
     return out
 
 
+def chain_middles(t, acc=None):
+    acc = set() if acc is None else acc
+    if t[0] == "cmp":
+        for x in t[1][1:-1]:
+            if x[0] == "atom":
+                acc.add(x[1])
+    elif t[0] == "not":
+        chain_middles(t[1], acc)
+    elif t[0] != "atom":
+        chain_middles(t[1], acc)
+        chain_middles(t[2], acc)
+    return acc
+
+
+def only_extra_middle_reads(exp_reads, got_reads, middles):
+    """got_reads equals exp_reads except that a chain's middle operand is read once more right
+    after it was read."""
+    i = j = 0
+    extra = 0
+    while j < len(got_reads):
+        if i < len(exp_reads) and got_reads[j] == exp_reads[i]:
+            i += 1
+            j += 1
+        elif j > 0 and got_reads[j] == got_reads[j - 1] and got_reads[j] in middles:
+            j += 1
+            extra += 1
+        else:
+            return False
+    return i == len(exp_reads) and extra > 0
+
+
 def classify(t, expr, exp, got, exp_reads, got_reads):
     """Root-cause category of a disagreement (for known-finding matching)."""
     if any(q in expr for q in ("'v'", "'^'", "'!'")):
         return "operator-rewrite-inside-string-literal"
-    if has_chain(t) and exp == got and collapse(got_reads) == exp_reads:
+    if has_chain(t) and exp == got and only_extra_middle_reads(exp_reads, got_reads,
+                                                               chain_middles(t)):
         return "chained-comparison-middle-operand-read-twice"
     if exp != got:
         return "value"
@@ -651,10 +683,48 @@ def negative(res, exprs):
 
 # -- driver -------------------------------------------------------------------------------------
 
+def systematic_trees(max_ops, max_nots=2):
+    """Every binary tree shape with up to max_ops and/or nodes, every operator assignment, every
+    placement of up to max_nots negations (on any node), leaves a, b, c, a, ... left to right."""
+    def shapes(n):
+        if n == 0:
+            yield None
+            return
+        for left in range(n):
+            for ls in shapes(left):
+                for rs in shapes(n - 1 - left):
+                    yield (ls, rs)
+
+    def nodes(sh):
+        return 1 if sh is None else 1 + nodes(sh[0]) + nodes(sh[1])
+
+    def build(sh, ops, nots, leaves, pos):
+        me = pos[0]
+        pos[0] += 1
+        if sh is None:
+            t = atom(next(leaves))
+        else:
+            op = next(ops)
+            t = (op, build(sh[0], ops, nots, leaves, pos), build(sh[1], ops, nots, leaves, pos))
+        return ("not", t) if me in nots else t
+    out = []
+    for n in range(1, max_ops + 1):
+        for sh in shapes(n):
+            k = nodes(sh)
+            for opsel in itertools.product(("and", "or"), repeat=n):
+                for r in range(0, max_nots + 1):
+                    for nots in itertools.combinations(range(k), r):
+                        out.append(build(sh, iter(opsel), set(nots),
+                                         itertools.cycle("abc"), [0]))
+    return out
+
+
 def all_trees(tier):
     k = 2 if tier == "quick" else 3
     base = bool_shapes(k) + cmp_shapes(k)
     out = list(base)
+    if tier == "thorough":
+        out += systematic_trees(3)
     for mp in CONFUSE:
         out += [substitute(t, mp) for t in bool_shapes(min(k, 2)) + cmp_shapes(1)]
     # literals in every atom position of the small shapes
